@@ -302,11 +302,39 @@ pub fn quiet_panics() {
         } else {
             "<non-string panic>".to_string()
         };
+        PANIC_LOG.with(|p| p.borrow_mut().push((loc.clone(), msg.clone())));
         LAST_PANIC.with(|p| *p.borrow_mut() = Some((loc, msg)));
     }));
 }
 thread_local! {
     pub static LAST_PANIC: std::cell::RefCell<Option<(String, String)>> = const { std::cell::RefCell::new(None) };
+}
+thread_local! {
+    pub static PANIC_LOG: std::cell::RefCell<Vec<(String, String)>> = const { std::cell::RefCell::new(Vec::new()) };
+}
+/// all panics (location, message) recorded on this OS thread since the last call, in order
+pub fn take_panics() -> Vec<(String, String)> {
+    PANIC_LOG.with(|p| std::mem::take(&mut *p.borrow_mut()))
+}
+/// "file|message" without line numbers and without the /repo/ prefix: a stable call-site identity
+pub fn panic_site(loc: &str, msg: &str) -> String {
+    let loc = loc.replace("/repo/", "");
+    let file = loc.split(':').next().unwrap_or(&loc).to_string();
+    // numbers inside the message (column values, lengths) are data, not identity
+    let mut m = String::new();
+    let mut in_num = false;
+    for c in msg.chars().take(90) {
+        if c.is_ascii_digit() {
+            if !in_num {
+                m.push('#');
+            }
+            in_num = true;
+        } else {
+            in_num = false;
+            m.push(if c == '\n' { ' ' } else { c });
+        }
+    }
+    format!("{file}|{m}")
 }
 pub fn take_last_panic() -> Option<(String, String)> {
     LAST_PANIC.with(|p| p.borrow_mut().take())
